@@ -139,6 +139,14 @@ theorem fscalar_order_iff_base_partial {db : Db} (hdb : db.AllWF) {small : Rat} 
   unfold SimpleQ.baseAmount at *
   rw [ey]
 
+/-- full strength when both operands are written in the same unit (whatever their categories): no
+numerator is converted -/
+theorem fscalar_same_unit_order_iff_base {db : Db} (hdb : db.AllWF) {small : Rat} (hs : 0 ≤ small)
+    {a b : FSc} (ha : a.q.Built db) (hb : b.q.Built db) (hq : a.q.qtype = b.q.qtype)
+    (hu : a.q.unit = b.q.unit) (op : Op) :
+    a.order db small op b = .ok (op.apply (a.q.baseAmount a.v.toFloat) (b.q.baseAmount b.v.toFloat)) :=
+  fscalar_order_iff_base_partial hdb ha hb hq (hu ▸ numeratorKept_same_unit hs b) op
+
 theorem fscalar_le_total_partial {db : Db} (hdb : db.AllWF) {small : Rat} {a b : FSc}
     (ha : a.q.Built db) (hb : b.q.Built db) (hq : a.q.qtype = b.q.qtype)
     (hkb : b.NumeratorKept db small a.q.unit) (hka : a.NumeratorKept db small b.q.unit) :
